@@ -435,6 +435,9 @@ pub fn for_shard(fams: &[Family], shard: usize, nshards: usize, mut f: impl FnMu
         for i in 0..fam.count {
             if g % nshards == shard {
                 let case = (fam.make)(i);
+                if (g / nshards) % 53 == 0 {
+                    crate::build::history_noise(g);
+                }
                 f(&case);
             }
             g += 1;
